@@ -289,7 +289,12 @@ class MarkdownRenderer(BaseRenderer):
     def render_paragraph(
         self, token: block_token.Paragraph, max_line_length: int
     ) -> Iterable[str]:
-        return self.span_to_lines(token.children, max_line_length=max_line_length)
+        lines = self.span_to_lines(token.children, max_line_length=max_line_length)
+        for index, line in enumerate(lines):
+            # a continuation line made of "=" or "-" only would turn the paragraph into a setext heading
+            if index > 0 and block_token.Paragraph.is_setext_heading(line):
+                line = "\\" + line
+            yield line
 
     def render_block_code(
         self, token: block_token.BlockCode, max_line_length: int
